@@ -277,6 +277,25 @@ def writeProbes : List Info :=
 def writeTable (p : InPlace) : List Bool := writeProbes.map fun i => decide (i.after p ≠ i)
 
 
+/-! ## The XEP's own vocabulary (round E, review C20-3)
+
+`Spec` shares `renderId` and `Form.formType` with `verImpl`.  These two definitions are written
+from the text of XEP-0115 5.1 without looking at the code: step 2 ("category / type / lang /
+name <") as an explicit intercalation, and the `FORM_TYPE` of a form as *the* value of *the*
+field named `FORM_TYPE` - defined only when there is exactly one such field with exactly one
+value (`none` otherwise: the XEP does not say what such a form contributes). -/
+
+def xepIdentity (i : Identity) : Bytes :=
+  ([i.cat, i.typ, i.lang, i.name].intersperse slash).flatten ++ lt
+
+def Form.xepType (F : Form) : Option Bytes :=
+  match F.fields.filter (fun fd => fd.var == formTypeVar) with
+  | [fd] => match fd.values with
+    | [v] => some v
+    | _ => none
+  | _ => none
+
+
 /-! ## Probe domains (the regenerated facts of `Generated/C20.lean` are tables over them) -/
 
 /-- for every ordered pair of distinct positions `(i, j)` of `u`: does `le u[i] u[j]` hold, i.e.
